@@ -916,7 +916,7 @@ func (fv *FuncVerifier) pureApp(fn *types.Func, sp *FuncSpec, args []Term, st *S
 		for i := 0; i < sig.Results().Len(); i++ {
 			rs := fv.mustSort(sig.Results().At(i).Type(), "result")
 			n := fmt.Sprintf("u_%s_%d_%s", sanitize(strings.TrimPrefix(sp.Key, "github.com/synnaxlabs/")), i, sanitize(strings.Join(ps, "_")))
-			fv.u.declare("fun:"+n, fmt.Sprintf("(declare-fun %s (%s) %s)", n, strings.Join(ps, " "), rs.Name))
+			fv.u.declare("fun:"+n, fmt.Sprintf("(declare-fun %s (%s) %s)", n, strings.Join(ps, " "), rs.Name)+uninterpResultAxiom(n, ps, rs))
 			out = append(out, app(rs, n, as...))
 		}
 		fv.u.note("%s has no body here (interface method): modelled as an uninterpreted, deterministic function of its arguments", sp.Key)
@@ -989,7 +989,7 @@ func (fv *FuncVerifier) getPure(fn *types.Func, sp *FuncSpec, ts map[*types.Type
 		for i := 0; i < sig.Results().Len(); i++ {
 			rs := fv.mustSort(sig.Results().At(i).Type(), "result")
 			n := fmt.Sprintf("u_%s_%d%s", sanitize(strings.TrimPrefix(sp.Key, "github.com/synnaxlabs/")), i, sanitize(strings.Join(ps, "_")))
-			fv.u.declare("fun:"+n, fmt.Sprintf("(declare-fun %s (%s) %s)", n, strings.Join(ps, " "), rs.Name))
+			fv.u.declare("fun:"+n, fmt.Sprintf("(declare-fun %s (%s) %s)", n, strings.Join(ps, " "), rs.Name)+uninterpResultAxiom(n, ps, rs))
 			pd.names = append(pd.names, n)
 			pd.sorts = append(pd.sorts, rs)
 		}
@@ -1700,4 +1700,21 @@ func (p *Prog) globalInit(o *types.Var) *globalInit {
 		}
 	}
 	return nil
+}
+
+// uninterpResultAxiom: a slice returned by an uninterpreted function still is a slice (0 <= len <= 2^56).
+func uninterpResultAxiom(n string, ps []string, rs *Sort) string {
+	if rs == nil || rs.Kind != KSlice {
+		return ""
+	}
+	if len(ps) == 0 {
+		return fmt.Sprintf("\n(assert (and (<= 0 (len_%s %s)) (<= (len_%s %s) 72057594037927936)))", rs.Name, n, rs.Name, n)
+	}
+	var bs, as []string
+	for i, p := range ps {
+		bs = append(bs, fmt.Sprintf("(x!%d %s)", i, p))
+		as = append(as, fmt.Sprintf("x!%d", i))
+	}
+	call := fmt.Sprintf("(%s %s)", n, strings.Join(as, " "))
+	return fmt.Sprintf("\n(assert (forall (%s) (! (and (<= 0 (len_%s %s)) (<= (len_%s %s) 72057594037927936)) :pattern (%s))))", strings.Join(bs, " "), rs.Name, call, rs.Name, call, call)
 }
